@@ -25,7 +25,7 @@ def _init(cicada):
     _sb = Sandbox(cicada, "c20")
 
 
-def family(name, ctx, prefix=""):
+def family(name, ctx, prefix="", entries=None):
     if "|" in prefix:
         # the completer splits the word at `|` (so that `ls|wc<TAB>` completes a command name)
         return "typed-prefix-contains-a-pipe-character"
@@ -40,17 +40,19 @@ def family(name, ctx, prefix=""):
     dollar_ref = re.search(r"\$[A-Za-z0-9_$?{(]", name) is not None
     bq_pair = name.count("`") >= 2
     if ctx == "unq":
-        if name.startswith("~"):
+        # (a family applies only where its pass would really change this name - see common.esc_effects)
+        eff = common.esc_effects(name, entries)
+        if "tilde" in eff:
             return "unquoted:leading-tilde-is-not-protected"
-        if bq_pair:
+        if "backquote" in eff:
             return "unquoted:escaped-backquote-pair-is-run"
-        if re.search(r".\$[A-Za-z0-9_$?{(]", name):
+        if "dollar" in eff:
             return "unquoted:escaped-dollar-not-at-word-start-is-expanded"
-        if "*" in name:
+        if "star" in eff:
             return "unquoted:escaped-star-is-globbed"
-        if name.endswith("&"):
+        if name.endswith("&") and (name == "&" or "/" in name):
             return "unquoted:escaped-ampersand-as-last-word-backgrounds"
-        if "{" in name and "," in name and "}" in name:
+        if "brace" in eff:
             return "unquoted:escaped-braces-are-expanded"
         return None
     if ctx == "dq":
@@ -202,11 +204,8 @@ def judge(case):
         want = [(sub + "/" if sub else "") + name + ("/" if isd else "")]
         if cd:
             want = ["cd"] + want
-        fam = family((sub + "/" if sub else "") + name, ctx, prefix)
-        if fam == "unquoted:escaped-star-is-globbed" and unusable_pattern(name) and not (sub and any(c in sub for c in "*?[")):
-            # the wildcard pass cannot take this name for a pattern at all and leaves such a word alone: whatever changed
-            # the argument, it is not that finding
-            fam = None
+        # (inside a sub-directory the wildcard pass walks the path: not modelled, assume it matches)
+        fam = family((sub + "/" if sub else "") + name, ctx, prefix, None if sub else [n for n, _ in pop])
         if rec is None:
             # nothing ran: continuation prompt, background, syntax error ...
             sym = "program-did-not-run"
